@@ -121,6 +121,63 @@ def run_main_slow_stdin(argv, pieces, extra_env=None, timeout=120):
         return None, b'', b''
 
 
+def run_main_on_terminal(argv, stdin=b'', stdin_terminal=False, extra_env=None, timeout=60):
+    """main.py with its standard output on a (pseudo) terminal, as when started from a shell without redirection; standard input is
+    a pipe carrying `stdin`, or - stdin_terminal - a terminal of its own at which `stdin` is typed. Returns (returncode, what
+    reached the terminal, stderr); returncode None on timeout"""
+    import pty, select, time, termios
+    m_out, s_out = pty.openpty()
+    m_in = s_in = None
+    try:
+        if stdin_terminal:
+            m_in, s_in = pty.openpty()
+            attrs = termios.tcgetattr(s_in)
+            attrs[3] &= ~termios.ECHO          # what is typed is not echoed into the comparison
+            termios.tcsetattr(s_in, termios.TCSANOW, attrs)
+        p = subprocess.Popen([PY, MAIN] + list(argv), stdin=s_in if stdin_terminal else subprocess.PIPE, stdout=s_out, stderr=subprocess.PIPE,
+                             env=base_env(extra_env), close_fds=True)
+        os.close(s_out)
+        s_out = None
+        if stdin_terminal:
+            os.close(s_in)
+            s_in = None
+            os.write(m_in, stdin)
+        else:
+            try:
+                p.stdin.write(stdin)
+                p.stdin.close()
+            except (BrokenPipeError, OSError):
+                pass
+        out = b''
+        t_end = time.time() + timeout
+        while time.time() < t_end:
+            r, _, _ = select.select([m_out], [], [], 0.2)
+            if r:
+                try:
+                    chunk = os.read(m_out, 65536)
+                except OSError:
+                    break           # the other end is closed: the program is gone
+                if not chunk:
+                    break
+                out += chunk
+            elif p.poll() is not None:
+                break
+        if p.poll() is None:
+            try:
+                p.wait(timeout=max(0.1, t_end - time.time()))
+            except subprocess.TimeoutExpired:
+                p.kill()
+                p.wait()
+                return None, out, b''
+        err = p.stderr.read()
+        return p.returncode, out, err
+    finally:
+        for fd in (m_out, s_out, m_in, s_in):
+            if fd is not None:
+                try: os.close(fd)
+                except OSError: pass
+
+
 def real_gdb():
     for p in ('/usr/bin/gdb', '/usr/local/bin/gdb'):
         if os.path.exists(p):
